@@ -99,6 +99,8 @@ def run(run: core.Run) -> int:
         rnd = [s for s in random_sets(run, 4 * n) if sane_for_structured(s["rs"])]
         sets += rnd
         sets = c02.wf_filter(sets, drv, jobs)
+        for i, s_ in enumerate(sets):
+            s_["twice"] = i % 6 == 5     # every sixth set: the answer of a second convert() of the same decompiler object
         results = dc.pipeline_all(pool, sets, timeout=40, single_timeout=12)
     finally:
         pool.close()
